@@ -112,6 +112,7 @@ var vCr struct {
 	cut    int  // part > 0, a file: the number of bytes that reached the disk
 	gone   int  // part > 0, a removal: the number of entries that are gone
 	pend   bool // the call in flight goes ahead, the process stops at the next crash point
+	nPart  int  // how many partial effects the call in flight was offered (native sweep)
 }
 
 // vPoint is the crash point before a mutating call.
@@ -131,6 +132,7 @@ func vPoint(op, p string) {
 		switch op {
 		case vOpWriteFile, vOpCreate, vOpIoCopy, vOpSidecar:
 			n := len(vCutSpecs())
+			vCr.nPart = n
 			k := verifChoice(verifName("crashPart", vCr.seq), n+1)
 			verifAssume(k <= n)
 			if k > 0 {
@@ -147,6 +149,9 @@ func vPoint(op, p string) {
 	}
 	vDie()
 }
+
+// vPartsOffered[i]: vCr.nPart of the i-th process of the scenario that ran last.
+var vPartsOffered [4]int
 
 // vDie stops the process. A call that was allowed to go ahead is cut back to its prefix first.
 func vDie() {
@@ -198,7 +203,6 @@ func vApplyCut() {
 	if verifSymbolic() {
 		n := vFS.file(vCr.path)
 		n.data = n.data[:cut]
-		n.plan = nil
 		return
 	}
 	vMust(os.Truncate(vCr.path, int64(cut)))
@@ -235,6 +239,7 @@ func vPartialRemoveAll(path string) {
 		return
 	}
 	if vCr.mode == vPartThin {
+		vCr.nPart = 2 * (m - 1)
 		k := verifChoice(verifName("crashPart", vCr.seq), 2*(m-1)+1)
 		verifAssume(k <= 2*(m-1))
 		vCr.part = k
@@ -248,6 +253,7 @@ func vPartialRemoveAll(path string) {
 		vCr.gone = k
 		return
 	}
+	vCr.nPart = 1
 	k := verifChoice(verifName("crashPart", vCr.seq), 2)
 	verifAssume(k <= 1)
 	vCr.part = k
@@ -278,6 +284,7 @@ func vPartialMkdirAll(path string) {
 	if len(missing) < 2 {
 		return
 	}
+	vCr.nPart = len(missing) - 1
 	k := verifChoice(verifName("crashPart", vCr.seq), len(missing))
 	verifAssume(k < len(missing))
 	vCr.part = k
@@ -338,9 +345,12 @@ func vRunCrashPart(at, seq, mode int, f func()) (crashed bool) {
 		vCr.hooked = true
 	}
 	vCr.armed, vCr.count, vCr.at, vCr.op, vCr.path = true, 0, at, "", ""
-	vCr.seq, vCr.mode, vCr.part, vCr.cut, vCr.gone, vCr.pend = seq, mode, 0, 0, 0, false
+	vCr.seq, vCr.mode, vCr.part, vCr.cut, vCr.gone, vCr.pend, vCr.nPart = seq, mode, 0, 0, 0, false, 0
 	defer func() {
 		vCr.armed = false
+		if seq < len(vPartsOffered) {
+			vPartsOffered[seq] = vCr.nPart
+		}
 		if r := recover(); r != nil {
 			if _, ok := r.(vCrash); ok {
 				crashed = true
@@ -379,7 +389,6 @@ func vCountPoints(f func()) int {
 type vNode struct {
 	dir  bool
 	data []byte
-	plan *plan.Plan // content of a plan file written through plan.WriteToFile
 }
 
 type vFSModel struct {
@@ -407,7 +416,7 @@ func (m *vFSModel) clone() *vFSModel {
 	c := &vFSModel{nodes: map[string]*vNode{}}
 	for _, k := range m.order {
 		n := m.nodes[k]
-		c.put(k, &vNode{dir: n.dir, data: append([]byte(nil), n.data...), plan: n.plan})
+		c.put(k, &vNode{dir: n.dir, data: append([]byte(nil), n.data...)})
 	}
 	return c
 }
@@ -852,8 +861,27 @@ func vJSONMarshal(v any) ([]byte, error) {
 	switch m := v.(type) {
 	case *raft.SnapshotMeta:
 		return vEncodeMeta(m), nil
+	case *plan.Plan:
+		// the plan VALUE is kept in a table; its encoding names the table entry
+		vPlans = append(vPlans, vCopyPlan(m))
+		return []byte{'{', 'p', 'l', 'a', 'n', ':', byte(len(vPlans) - 1), '}'}, nil
 	}
 	panic("verif-fs: json.Marshal of an unmodelled type")
+}
+
+var vPlans []*plan.Plan
+
+// encoding/json.Unmarshal (of plans only): anything but a whole encoding is a syntax error.
+func vJSONUnmarshal(data []byte, v any) error {
+	p, ok := v.(*plan.Plan)
+	if !ok {
+		panic("verif-fs: json.Unmarshal into an unmodelled type")
+	}
+	if len(data) != 8 || string(data[:6]) != "{plan:" || data[7] != '}' || int(data[6]) >= len(vPlans) {
+		return vErrBadData
+	}
+	*p = *vCopyPlan(vPlans[data[6]])
+	return nil
 }
 
 // readRaftMeta
@@ -1044,33 +1072,6 @@ func vCopyPlan(p *plan.Plan) *plan.Plan {
 	return c
 }
 
-// plan.WriteToFile: the plan value is stored in <path>.tmp, which is then renamed to <path>
-// (two mutating calls, two crash points, as in the real function).
-func vPlanWriteToFile(p *plan.Plan, path string) error {
-	tmp := path + ".tmp"
-	vPoint(vOpWriteFile, tmp)
-	n, err := vCreateFile(tmp)
-	if err != nil {
-		return err
-	}
-	n.plan = vCopyPlan(p)
-	n.data = []byte("{plan}")
-	vPoint(vOpRename, tmp)
-	return vRename(tmp, path)
-}
-
-// plan.ReadFromFile
-func vPlanReadFromFile(path string) (*plan.Plan, error) {
-	n := vFS.file(path)
-	if n == nil {
-		return nil, vErrNotExist
-	}
-	if n.plan == nil {
-		return nil, vErrBadData
-	}
-	return vCopyPlan(n.plan), nil
-}
-
 // ---------------------------------------------------------------- both worlds
 
 func vMust(err error) {
@@ -1087,6 +1088,7 @@ func vNewRoot(tag string) string {
 		root := "/" + tag
 		vFS = vNewFS(root)
 		vHandles = nil
+		vPlans = nil
 		return root
 	}
 	d, err := os.MkdirTemp("", tag+"-")
